@@ -28,6 +28,7 @@ func init() {
 	gens["Src_staticdir.v"] = genGoLoopStaticDir
 	gens["Src_group.v"] = genGoLoopGroup
 	gens["Src_reverse.v"] = genGoLoopReverse
+	gens["Src_slashmw.v"] = genGoLoopSlash
 }
 
 // innerHandler finds the innermost function literal of shape func(c echo.Context) error inside fd.
@@ -484,7 +485,11 @@ func (g *goliteCfg) stmt(s ast.Stmt) ([]string, error) {
 				if v.Tok == token.SUB_ASSIGN {
 					op = "ESub"
 				}
-				r = fmt.Sprintf("%s (%s) (%s)", op, l, r)
+				if g.loop && v.Tok == token.ADD_ASSIGN && (isStringy(v.Rhs[i]) || g.strs[lit(v.Lhs[i])]) {
+					r = fmt.Sprintf("EPred \"concat\" [%s; %s]", l, r) // s += "..." on a string
+				} else {
+					r = fmt.Sprintf("%s (%s) (%s)", op, l, r)
+				}
 			case token.ASSIGN, token.DEFINE:
 			default:
 				return nil, fmt.Errorf("assignment operator %s is not understood", v.Tok)
@@ -1181,4 +1186,21 @@ func genGoLoopReverse(repo string) (string, error) {
 		return "", err
 	}
 	return goloopHeader + "(* router.go: Router.Reverse.  r.routes is a list cell of (Name, Path) values; len, indexing, the projections and fmt.Sprintf are\n   pure; the writes to the buffer (uri.WriteString, uri.WriteByte) are events, and what is returned is the buffer's content. *)\n" + s, nil
+}
+
+func genGoLoopSlash(repo string) (string, error) {
+	out := goloopHeader + "(* middleware/slash.go: the request handlers (innermost closures) of AddTrailingSlashWithConfig and RemoveTrailingSlashWithConfig.\n   strings.HasSuffix, sanitizeURI, len, slicing and concatenation are pure; url.Path, c.QueryString() and config.RedirectCode are\n   constants of one request; the writes to req.RequestURI and url.Path are cells; c.Redirect and next are events. *)\n"
+	for _, fn := range [][2]string{{"AddTrailingSlashWithConfig", "add_slash_handler"}, {"RemoveTrailingSlashWithConfig", "remove_slash_handler"}} {
+		s, err := goliteClosure(repo, "middleware/slash.go", fn[0], fn[1], goliteCfg{loop: true,
+			ignore: map[string]bool{}, cells: map[string]bool{},
+			tail:   map[string]bool{"next": true, "c.Redirect": true},
+			pure:   map[string]bool{"len": true, "strings.HasSuffix": true, "sanitizeURI": true},
+			strs:   map[string]bool{"path": true, "uri": true, "qs": true},
+			extern: map[string]bool{"config.Skipper": true}})
+		if err != nil {
+			return "", err
+		}
+		out += s
+	}
+	return out, nil
 }
